@@ -802,6 +802,13 @@ NEG = {"==": "!=", "!=": "==", "<": ">=", ">=": "<", ">": "<=", "<=": ">"}
 SWAP = {"==": "==", "!=": "!=", "<": ">", ">": "<", "<=": ">=", ">=": "<="}
 
 
+def _operand_text(n):
+    """constants by value (unless they are named enumerators), everything else as text"""
+    if n is not None and const_of(n) is not None and not (n.get("k") == "DeclRefExpr" and n.get("dk") == "enum"):
+        return str(const_of(n))
+    return expr_text(n)
+
+
 def norm_cond(n, pol=True):
     """atomic condition node + polarity -> canonical (op, lhs_text, rhs_text) with polarity folded in.
     `!x` -> ('==', x, '0'); `x` -> ('!=', x, '0')."""
@@ -814,7 +821,7 @@ def norm_cond(n, pol=True):
         l, r = strip(n["c"][0]), strip(n["c"][1])
         if not pol:
             op = NEG[op]
-        lt, rt = expr_text(l), expr_text(r)
+        lt, rt = _operand_text(l), _operand_text(r)
         # constants to the right
         if const_of(l) is not None and const_of(r) is None:
             lt, rt, op = rt, lt, SWAP[op]
@@ -825,8 +832,12 @@ def norm_cond(n, pol=True):
 def effective_cond(n):
     """The terminator condition clang reports for `if (A && B)` in the block that evaluates B is the whole
     `A && B`; on that block's edges its value is B's (A is already decided), so use the rightmost operand."""
+    # only when the logical operator IS the branch condition (control-flow context); wrapped in a call such as
+    # __builtin_expect() the operands are joined before the branch and the whole expression must be evaluated
     while True:
-        m = strip(n)
+        m = n
+        while m is not None and m.get("k") in CASTS and m.get("c"):
+            m = m["c"][0]
         if m is not None and m.get("k") == "BinaryOperator" and m.get("op") in ("&&", "||"):
             n = m["c"][1]
         else:
@@ -870,9 +881,22 @@ def _cfg_guards(self, b):
         rt = b in self.reachable_from(ss[0], avoid=(d,))
         rf = b in self.reachable_from(ss[1], avoid=(d,))
         if rt and not rf:
-            out.append({"cond": cond, "pol": True, "block": d})
+            out.extend(_expand_guard(cond, True, d))
         elif rf and not rt:
-            out.append({"cond": cond, "pol": False, "block": d})
+            out.extend(_expand_guard(cond, False, d))
+    return out
+
+
+def _expand_guard(cond, pol, block):
+    """(A && B) true -> A true, B true;  (A || B) false -> A false, B false;  !X -> X with flipped polarity"""
+    out = [{"cond": cond, "pol": pol, "block": block}]
+    c = strip(cond)
+    while c is not None and c.get("k") == "UnaryOperator" and c.get("op") == "!":
+        pol = not pol
+        c = strip(c["c"][0])
+    if c is not None and c.get("k") == "BinaryOperator" and ((c.get("op") == "&&" and pol) or (c.get("op") == "||" and not pol)):
+        out += _expand_guard(c["c"][0], pol, block)
+        out += _expand_guard(c["c"][1], pol, block)
     return out
 
 
